@@ -111,10 +111,13 @@ def _entries(m: ast.AST, p) -> Optional[list]:
                 return None
             k = key.id
             conds = []
+            when = getattr(val, "_iter_epoch", None)
             for g, pol, kind in p.guards:
                 if kind == "if":
                     c = _in_test(g, k)
                     if c is not None:
+                        if when is not None and k in when and p.gepoch.get(id(g), {}).get(k, when[k]) != when[k]:
+                            continue  # a test of another binding of the same loop name (an earlier loop re-using it)
                         conds.append((c[0], c[1] == pol))
             fams.append((dump(src), k, conds, val))
     else:
@@ -414,17 +417,29 @@ def r5_copy_on_partial(repo: Repo, rep):
         detail = "no loop over self.__dict__"
         from ..util import deref, single_defs
         tmp = single_defs(dc.node)
+        DICTS = ("self.__dict__", "vars(self)")
         for l in ast.walk(dc.node):
-            if isinstance(l, ast.For) and dump(l.iter) in ("self.__dict__.items()", "vars(self).items()") and isinstance(l.target, ast.Tuple) and len(l.target.elts) == 2:
-                k, v = (dump(x) for x in l.target.elts)
-                sets = [c for s in l.body for c in ast.walk(s) if isinstance(c, ast.Call) and attr_chain(c.func) == "setattr"]
-                cond = [s for s in l.body if isinstance(s, (ast.If, ast.Continue, ast.Break))]
-                if len(sets) == 1 and not cond and len(sets[0].args) == 3:
-                    a = sets[0].args
-                    val = deref(a[2], tmp)
-                    deep = isinstance(val, ast.Call) and ends(attr_chain(val.func), "deepcopy") and val.args and dump(val.args[0]) == v
-                    good = dump(a[1]) == k and deep
-                    detail = dump(sets[0])
+            if not isinstance(l, ast.For):
+                continue
+            it = deref(l.iter, tmp)
+            k = v_forms = None
+            txt = dump(it)
+            if txt in tuple(f"{d}.items()" for d in DICTS) and isinstance(l.target, ast.Tuple) and len(l.target.elts) == 2:
+                k = dump(l.target.elts[0])
+                v_forms = (dump(l.target.elts[1]),) + tuple(f"{d}[{k}]" for d in DICTS) + (f"getattr(self, {k})",)
+            elif txt in DICTS + tuple(f"{d}.keys()" for d in DICTS) + tuple(f"list({d})" for d in DICTS) + tuple(f"list({d}.keys())" for d in DICTS) and isinstance(l.target, ast.Name):
+                k = l.target.id
+                v_forms = tuple(f"{d}[{k}]" for d in DICTS) + (f"getattr(self, {k})",)
+            if k is None:
+                continue
+            sets = [c for s in l.body for c in ast.walk(s) if isinstance(c, ast.Call) and attr_chain(c.func) == "setattr"]
+            cond = [s for s in l.body if isinstance(s, (ast.If, ast.Continue, ast.Break))]
+            if len(sets) == 1 and not cond and len(sets[0].args) == 3:
+                a = sets[0].args
+                val = deref(a[2], tmp)
+                deep = isinstance(val, ast.Call) and ends(attr_chain(val.func), "deepcopy") and val.args and dump(val.args[0]) in v_forms
+                good = dump(a[1]) == k and deep
+                detail = dump(sets[0])
         rep.check(R, good, dc.site(), dc.fq, "setattr(copy, k, copy.deepcopy(v, memo)) for every (k, v) in self.__dict__", detail, detail)
     # __call__ / evaluate_function write nothing on self (allow-list: device move of a constant tensor)
     allow = {("DomainUserFunction", "evaluate_function", "self.fun"): "device move of a constant tensor: same values"}
